@@ -71,7 +71,21 @@ func Harness_C03_content_round_trip() {
 		return
 	}
 	if l > 0 {
-		switch style := vm.Choice("writeStyle", 3); {
+		switch style := vm.Choice("writeStyle", 4); {
+		case style == 3 && l >= 2 && l <= 3:
+			// all of it, shrunk to one byte (the offset stays behind the new end), then the rest once more: the gap
+			// reads as zeros, like on any file
+			n, werr := h.Write(content)
+			terr := h.Truncate(1)
+			n2, e2 := h.Write(content[1:])
+			vm.Assert("C03.write_ok", werr == nil && n == l && terr == nil && e2 == nil && n2 == l-1)
+			expected := []byte{content[0]}
+			for i := 1; i < l; i++ {
+				expected = append(expected, 0)
+			}
+			expected = append(expected, content[1:]...)
+			content = expected
+			l = len(expected)
 		case style == 1 && l >= 2:
 			// in two pieces, looking at the handle in between
 			n1, e1 := h.Write(content[:1])
